@@ -178,10 +178,17 @@ static void run_hf(Json& js, vh::Rng& rng, long budget) {
         });
         js.begin("HF").num("flen", flen).num("M", M).str("o", o).arr("x", x).arr("re", re).boolean("exact", exact).end();
         // quadrature: tones at least max(2 tw, 6/M) away from 0 and 0.5
+        // other filters of the same (or neighbouring) length but a wide transition band are built first and kept alive:
+        // separately constructed instances must not influence one another's design
+        HilbertFilter decoy1(flen, 0.1), decoy2(flen + (rng.coin() ? 1 : -1), 0.09);
         HilbertFilter f2(flen, tw);
+        (void)decoy1.process(arr_real(3));
         const double guard = std::max(2 * tw, 6.0 / M);
         if (guard < 0.24) {
-            const double f = guard + (0.5 - 2 * guard) * rng.unif();
+            // half of the tones sit right at the edges of the stated pass-band, where the design is tightest
+            const int where = (int)rng.range(0, 3);
+            const double f = where == 0 ? guard * (1 + 0.02 * rng.unif()) : where == 1 ? 0.5 - guard * (1 + 0.02 * rng.unif())
+                                                                          : guard + (0.5 - 2 * guard) * rng.unif();
             const double A = std::pow(10.0, -2 + 4 * rng.unif()), ph = 6.28 * rng.unif();
             const int len = 6 * M + 200;
             arr_real s(len);
